@@ -44,11 +44,21 @@ type SimPeer struct {
 	Handle func(q SimQuery) []SimReply
 }
 
+// SimDelivered is one datagram a simulated peer sent back, with the harness's prediction of whether
+// it completes the query it answers.
+type SimDelivered struct {
+	Q         SimQuery
+	From      *net.UDPAddr
+	Data      []byte
+	Completes bool
+}
+
 type SimNet struct {
-	sv    *Srv
-	mu    sync.Mutex
-	peers map[string]*SimPeer
-	log   []SimQuery
+	sv        *Srv
+	mu        sync.Mutex
+	peers     map[string]*SimPeer
+	log       []SimQuery
+	delivered []SimDelivered
 	// FailWrite, if set, can make the write fail (the datagram is logged as failed, no reply).
 	FailWrite func(o simnet.Out, m OutMsg) error
 	// Blocked reports sources whose datagrams the node will drop before processing (blocklist); a
@@ -82,6 +92,21 @@ func (n *SimNet) Queries() []SimQuery {
 	n.mu.Lock()
 	defer n.mu.Unlock()
 	return append([]SimQuery(nil), n.log...)
+}
+
+func (n *SimNet) Delivered(from int) []SimDelivered {
+	n.mu.Lock()
+	defer n.mu.Unlock()
+	if from > len(n.delivered) {
+		from = len(n.delivered)
+	}
+	return append([]SimDelivered(nil), n.delivered[from:]...)
+}
+
+func (n *SimNet) NumDelivered() int {
+	n.mu.Lock()
+	defer n.mu.Unlock()
+	return len(n.delivered)
 }
 
 func (n *SimNet) NumQueries() int {
@@ -132,9 +157,13 @@ func (n *SimNet) onWrite(o simnet.Out) (bool, error) {
 		if from == nil {
 			from = o.To
 		}
-		if n.willComplete(from, o.To, r.Data, m.T) {
+		comp := n.willComplete(from, o.To, r.Data, m.T)
+		if comp {
 			matched = true
 		}
+		n.mu.Lock()
+		n.delivered = append(n.delivered, SimDelivered{Q: q, From: from, Data: r.Data, Completes: comp})
+		n.mu.Unlock()
 		n.sv.C.Inject(from, r.Data)
 	}
 	return matched, nil
